@@ -21,7 +21,9 @@ def disc_reply(version: int, devid: int, body: bytes, *, rng=None, magic=b"\x7a\
     if version == 2:
         return inner
     suffix = bytes(rng.randrange(256) for _ in range(16)) if rng else bytes(16)
-    return b"\x83\x70" + (len(inner) + 16).to_bytes(2, "big") + b"\x20\x0f\x00\x00" + inner + suffix
+    # the wrapper's own counter field (bytes 6..7) is whatever the module's firmware counts: also values that look like the inner packet's marker
+    ctr = rng.choice([b"\x00\x00", b"\x00\x00", b"\x00\x5a", b"\x5a\x5a", b"\x5a\x00", bytes([rng.randrange(256), rng.randrange(256)])]) if rng else b"\x00\x00"
+    return b"\x83\x70" + (len(inner) + 16).to_bytes(2, "big") + b"\x20\x0f" + ctr + inner + suffix
 
 
 def oracle(reply: bytes) -> dict:
